@@ -16,7 +16,9 @@ if [ ! -x "$DRV" ] || [ "$VERIF/driver/src/main.rs" -nt "$DRV" ]; then
 fi
 
 # hash of everything the build reads
-HASH=$( (cd "$REPO" && { find src proto build.rs Cargo.toml Cargo.lock -type f 2>/dev/null | LC_ALL=C sort | xargs sha256sum; sha256sum "$DRV"; }) | sha256sum | cut -c1-24)
+PROFILE="${VERIF_PROFILE:-dev}"
+PROFILE_FLAG=""; [ "$PROFILE" = "release" ] && PROFILE_FLAG="--release"
+HASH=$( (cd "$REPO" && { find src proto build.rs Cargo.toml Cargo.lock -type f 2>/dev/null | LC_ALL=C sort | xargs sha256sum; sha256sum "$DRV"; echo "$PROFILE"; }) | sha256sum | cut -c1-24)
 OUT="$CACHE/facts/$HASH.json"
 if [ -s "$OUT" ]; then echo "$OUT"; exit 0; fi
 
@@ -29,7 +31,7 @@ TMPF="$(mktemp -d "$CACHE/facts/tmp.XXXXXX")"
 trap 'rm -rf "$TMPF"' EXIT
 TARGET="$CACHE/target"
 # cargo's freshness cache would skip the wrapper: drop the workspace member's fingerprints
-rm -rf "$TARGET"/debug/.fingerprint/deltio-* 2>/dev/null || true
+rm -rf "$TARGET"/debug/.fingerprint/deltio-* "$TARGET"/release/.fingerprint/deltio-* 2>/dev/null || true
 LOG="$TMPF/cargo.log"
 if ! (cd "$REPO" && \
       LD_LIBRARY_PATH="$SYSROOT/lib${LD_LIBRARY_PATH:+:$LD_LIBRARY_PATH}" \
@@ -37,7 +39,7 @@ if ! (cd "$REPO" && \
       RUSTC_WORKSPACE_WRAPPER="$DRV" \
       VERIF_FACTS_DIR="$TMPF" VERIF_CRATES="deltio" \
       CARGO_TARGET_DIR="$TARGET" \
-      cargo +nightly check --offline --lib --bins >"$LOG" 2>&1); then
+      cargo +nightly check --offline --lib --bins $PROFILE_FLAG >"$LOG" 2>&1); then
   echo "ERROR check-broken: cargo +nightly check failed on $REPO" >&2
   tail -40 "$LOG" >&2
   exit 2
